@@ -34,7 +34,7 @@ def w_svd(a, *args, **kw):
     r = REAL["svd"](a, *args, **kw)
     U, S, Vt = r
     k = len(S)
-    sc = max(1.0, float(numpy.abs(a).max()) if a.size else 1.0)
+    sc = float(numpy.abs(a).max()) if a.size else 0.0          # purely relative: no absolute floor
     _chk("svd", numpy.allclose((U[:, :k] * S) @ Vt[:k], a, atol=TOL * sc, rtol=0)
          and numpy.allclose(U.conj().T @ U, numpy.eye(U.shape[1]), atol=TOL)
          and numpy.allclose(Vt @ Vt.conj().T, numpy.eye(Vt.shape[0]), atol=TOL)
@@ -45,7 +45,7 @@ def w_svd(a, *args, **kw):
 def w_qr(a, *args, **kw):
     r = REAL["qr"](a, *args, **kw)
     Q, Rm = r[0], r[1]
-    sc = max(1.0, float(numpy.abs(a).max()) if a.size else 1.0)
+    sc = float(numpy.abs(a).max()) if a.size else 0.0          # purely relative: no absolute floor
     _chk("qr", numpy.allclose(Q @ Rm, a, atol=TOL * sc, rtol=0) and numpy.allclose(Q.conj().T @ Q, numpy.eye(Q.shape[1]), atol=TOL),
          {"shape": list(a.shape)})
     return r
@@ -54,7 +54,7 @@ def w_qr(a, *args, **kw):
 def w_rq(a, *args, **kw):
     r = REAL["rq"](a, *args, **kw)
     Rm, Q = r[0], r[1]
-    sc = max(1.0, float(numpy.abs(a).max()) if a.size else 1.0)
+    sc = float(numpy.abs(a).max()) if a.size else 0.0          # purely relative: no absolute floor
     _chk("rq", numpy.allclose(Rm @ Q, a, atol=TOL * sc, rtol=0) and numpy.allclose(Q @ Q.conj().T, numpy.eye(Q.shape[0]), atol=TOL),
          {"shape": list(a.shape)})
     return r
@@ -63,7 +63,7 @@ def w_rq(a, *args, **kw):
 def w_eigh(a, *args, **kw):
     r = REAL["eigh"](a, *args, **kw)
     w, U = r
-    sc = max(1.0, float(numpy.abs(a).max()) if a.size else 1.0)
+    sc = float(numpy.abs(a).max()) if a.size else 0.0          # purely relative: no absolute floor
     _chk("eigh", numpy.allclose((U * w) @ U.conj().T, a, atol=TOL * sc, rtol=0) and numpy.allclose(U.conj().T @ U, numpy.eye(U.shape[1]), atol=TOL),
          {"shape": list(a.shape)})
     return r
@@ -142,7 +142,12 @@ def run_svd(case, seed):
     mask = None
     if qnl.shape[1] == qs and qnr.shape[1] == qs:
         mask = numpy.all(qnl[:, None, :] + qnr[None, :, :] == qntot, axis=-1)
-    a = make_matrix(rng, case, m, n, mask if mask is not None else numpy.ones((m, n)))
+    a0 = make_matrix(rng, case, m, n, mask if mask is not None else numpy.ones((m, n)))
+    # NORM stream: the same matrix at another overall scale c (complex phase for complex data)
+    cfac = float(case.get("scale", 1.0))
+    if case.get("complex") and case.get("scale", 1.0) != 1.0:
+        cfac = cfac * numpy.exp(1j * float(case.get("theta", 0.0)))
+    a = a0 * cfac if case.get("scale", 1.0) != 1.0 else a0
     LOG["append"].clear(); LOG["argsort"].clear()
     try:
         big_l = qnl.reshape(list(case["shape_l"]) + [qs])
@@ -158,7 +163,7 @@ def run_svd(case, seed):
         res["oracle"].append("input array modified")
     if any(x.tobytes() != k.tobytes() or x.dtype != k.dtype or x.shape != k.shape for x, k in zip((big_l, big_r, qntot), keep)):
         res["oracle"].append("label arrays (qnbigl / qnbigr / qntot) modified")
-    ap = LOG["append"]
+    ap = list(LOG["append"])
     if len(ap) % 2:
         res["error"] = "odd number of blockappend calls"
         return res
@@ -193,7 +198,7 @@ def run_svd(case, seed):
     res["struct"] = st
     # ---------------------------------------------------------------- NumPy oracle on the result
     bad = res["oracle"]
-    sc = max(1.0, float(numpy.abs(a).max()))
+    sc = float(numpy.abs(a).max())                      # purely relative: no absolute floor (zero input: exact)
     ma = numpy.where(mask, a, 0)
     if u.shape[0] != m or v.shape[0] != n or len(ql) != ku or len(qr_) != kv:
         bad.append("shapes")
@@ -243,6 +248,18 @@ def run_svd(case, seed):
         if numpy.any(numpy.any(qnr[rows] != numpy.array(qr_[k]), axis=-1)):
             bad.append("V column %d lives on rows with another label" % k)
             break
+    if case.get("scale", 1.0) != 1.0 and not case["QR"]:
+        # homogeneity: singular values of c*A are |c| times those of A (purely relative, 1e-10)
+        try:
+            base = M.svd_qn(a0.copy().reshape(list(case["shape_l"]) + list(case["shape_r"])), big_l, big_r, qntot, QR=False, system=case["system"],
+                            full_matrices=case["full"], opt_full_matrices=case["opt"])
+            s0 = numpy.sort(numpy.asarray(base[1]))[::-1]
+            s1 = numpy.sort(numpy.asarray(su))[::-1] / abs(cfac)
+            top = float(s0.max()) if len(s0) else 0.0
+            if len(s0) != len(s1) or (top > 0 and float(numpy.abs(s0 - s1).max()) > 1e-10 * top) or (top == 0 and numpy.any(s1 != 0)):
+                bad.append("singular values not homogeneous: svd_qn(c*A) != |c| svd_qn(A) for c = %r (max deviation %.3g relative)" % (cfac, float(numpy.abs(s0 - s1).max()) / top if top else -1))
+        except Exception as e:                                   # noqa
+            bad.append("base run for the homogeneity test raised %s" % type(e).__name__)
     res["ok"] = not bad
     return res
 
@@ -299,6 +316,10 @@ def run_eigh(case, seed):
         same = numpy.all(qn[:, None, :] == qn[None, :, :], axis=-1)
         pres = numpy.array([numpy.any(numpy.all(comp == qntot - q, axis=-1)) for q in qn])
         dm = dm + j * ~(same & pres[:, None])
+    dm0 = dm
+    cscale = float(case.get("scale", 1.0))
+    if cscale != 1.0:
+        dm = dm * cscale                                         # NORM stream (a density matrix scales by a positive number)
     LOG["append"].clear()
     try:
         dm_in = dm.copy()
@@ -311,7 +332,7 @@ def run_eigh(case, seed):
         res["oracle"].append("input density matrix modified")
     if any(x.tobytes() != k.tobytes() or x.dtype != k.dtype or x.shape != k.shape for x, k in zip((qnl, qnr, qntot), keep)):
         res["oracle"].append("label arrays (qnbigl / qnbigr / qntot) modified")
-    ap = LOG["append"]
+    ap = list(LOG["append"])
     res["order"] = [b["key"] for b in ap]
     new_qn = [[int(x) for x in numpy.asarray(t).ravel()] for t in new_qn]
     st = [len(ap)]
@@ -321,7 +342,7 @@ def run_eigh(case, seed):
     res["struct"] = st
     bad = res["oracle"]
     md, psd, present = eigh_reference(dm, qn, comp, qntot)
-    sc = max(1.0, float(numpy.abs(dm).max()))
+    sc = float(numpy.abs(dm).max())                     # purely relative: no absolute floor
     if u.shape != (N, len(s)) or len(new_qn) != len(s):
         bad.append("shapes")
         return res
@@ -344,6 +365,17 @@ def run_eigh(case, seed):
         if not numpy.any(numpy.all(comp == partner, axis=-1)):
             bad.append("column %d carries label %s which has no partner %s on the complementary side" % (k, new_qn[k], partner.tolist()))
             break
+    if cscale != 1.0:
+        # homogeneity of degree 1/2: s(c*dm) = sqrt(c) s(dm)
+        try:
+            _, sb, _ = M.eigh_qn(dm0.copy(), qnl, qnr, qntot, case["system"])
+            s0 = numpy.sort(numpy.asarray(sb).real)[::-1]
+            s1 = numpy.sort(numpy.asarray(s).real)[::-1] / numpy.sqrt(cscale)
+            top = float(s0.max()) if len(s0) else 0.0
+            if len(s0) != len(s1) or (top > 0 and float(numpy.abs(s0 - s1).max()) > 1e-6 * top):   # sqrt of round-off-level eigenvalues is ~1e-8 relative
+                bad.append("eigh_qn values not homogeneous: s(c*dm) != sqrt(c) s(dm) for c = %g (max deviation %.3g relative)" % (cscale, float(numpy.abs(s0 - s1).max()) / top if top else -1))
+        except Exception as e:                                   # noqa
+            bad.append("base run for the homogeneity test raised %s" % type(e).__name__)
     res["ok"] = not bad
     return res
 
